@@ -52,6 +52,17 @@ CHECKS["C08"] = dict(
          "latter is checked per case. base64 is a hand model of binascii validated by the stream.",
     technique="Lean 4 proof (byte-list algebra, induction over blocks) + model/implementation correspondence with an independent AES",
     design="6 C08")
+CHECKS["C09"] = dict(
+    text="Lean 4 theorems over an abstract hash: what is stored is (next tape entry, H(salt ++ p)); challenge <=> digest equality; "
+         "the secret verifies; another secret fails under collision freedom for that pair; two assignments draw consecutive tape "
+         "entries; the on-disk form is a function of salt and digest only; to_python(to_basic dv) = dv via proved base64 inverse; a "
+         "hand-written plaintext is hashed on load; the six offered algorithms and digest sizes are a decide obligation over the "
+         "generated table. Correspondence: six algorithms x secrets x formats with os.urandom taped, against the model instantiated "
+         "with executable Lean MD5/SHA-1/SHA-2 written independently of hashlib.",
+    note="CollisionFree is an explicit hypothesis (cryptographic assumption). Salt randomness is not modelled. The Lean hashes are "
+         "executable references validated by vectors and differentially, not proved equal to the standards.",
+    technique="Lean 4 proof (equational, over an abstract hash) + model/implementation correspondence with independent hashes",
+    design="6 C09")
 PENDING = ["C01", "C02", "C03", "C04", "C05", "C06", "C07", "C08", "C09", "C10", "C11", "C12", "C13", "C14", "C15", "C16",
            "C17", "C19", "C20"]
 
